@@ -4,7 +4,8 @@
 P=$1; N=$2; shift 2; CHECKS=${@:-$P}
 WT=/tmp/seed/$P; OUT=/tmp/seed/$P.out
 set -u
-cd $WT && git checkout -q -- . && git status --short | head -3
+cd $WT && git checkout -q -- . && git checkout -q --detach $(git -C /repo rev-parse HEAD) && git status --short | head -3
+echo "worktree at $(git -C $WT rev-parse --short HEAD)"
 echo "== clean: demo"; (cd $WT && PYTHONPATH=$WT /venv/bin/python -W ignore $OUT/demo$N.py > /tmp/seed/$P.demo_clean.txt 2>&1; echo "exit $?"; tail -2 /tmp/seed/$P.demo_clean.txt | cut -c1-200)
 git -C $WT apply $OUT/change$N.diff || { echo "PATCH DOES NOT APPLY"; exit 2; }
 echo "== changed: pinned tests"; (cd $WT && /venv/bin/python -m pytest -q -p no:cacheprovider --timeout=900 2>&1 | tail -1)
